@@ -15,7 +15,7 @@
 #   cs_c!2 = 1
 #   cs_c!3 = 1
 #   cs_s = 0
-#   cs_s!1 = -1/2
+#   cs_s!1 = 1/2
 #   cs_s!2 = 0
 #   cs_s!3 = 0
 #   sqrt = 1/134217728
